@@ -2322,7 +2322,7 @@ class Exec:
                 return [(st, VInt(z3.If(a >= 0, a, -a)))]
             if name == 'tuple':
                 return [(st, VTuple(self.iter_items(A[0], st)))]
-            if name == 'set':
+            if name in ('set', 'frozenset'):
                 if A and isinstance(A[0], VSet):
                     return [(st, A[0])]
                 return [(st, VSet(self.iter_items(A[0], st) if A else []))]
